@@ -99,7 +99,7 @@ def _dot_consistent(conds: Sequence[Tuple[str, bool, ast.AST]], sign: float, fol
         if not dots:
             continue
         if any(sorted(norm(a) for a in d.args) != [NI, NJ] for d in dots):
-            raise NotReadable(f"direction test `{k[:80]}` is not on dot(normal_i, normal_j)")
+            continue  # a dot product of other vectors (the offset criterion written with cosines): not about the direction of the normals
         seen = True
         try:
             val = bool(intervals.evaluate(n, lambda e: sign if isinstance(e, ast.Call) and norm(e.func) in ("numpy.dot", "np.dot") else None, fold))
@@ -184,7 +184,7 @@ def recorded_cases(chk, fi: FuncInfo, recs, fold, label_of):
 
 def check_pair_loop(chk, fi: FuncInfo, loop: ast.For, sites: c03e.Sites, c: Dict[str, Any], fold, label_of, eq_fields) -> str:
     """Returns the name of the list the triples are recorded in."""
-    paths = SX.Executor(nonnull=sites.nonnull, rewrite=sites.rewrite).run(loop.body)
+    paths = SX.Executor(nonnull=sites.nonnull, rewrite=sites.rewrite, helpers=c03e.new_helpers(chk.repo, fi)).run(loop.body, c03e.constant_tuples(fi, loop))
     stores = sorted({e.recv for p in paths for e in p.effects if e.kind == "call" and e.method == "append" and e.recv in sites.nonnull})
     if len(stores) != 1:
         raise NotReadable(f"the stacking loop appends to {stores}, expected one list of triples")
@@ -202,19 +202,36 @@ def check_pair_loop(chk, fi: FuncInfo, loop: ast.For, sites: c03e.Sites, c: Dict
         return store
 
     # ---- the two criteria: groups of decisions by the angles they read ------------------------------------------------
+    # an angle is read as angle_between_vectors(a, b) (radians) or as the dot product of two unit vectors (its cosine)
+    def quantities(n: ast.AST) -> List[Tuple[ast.Call, Tuple[str, str, str]]]:
+        out = []
+        for x in ast.walk(n):
+            q = c03e.angle_quantity(x, (NI, NJ))
+            if q is not None:
+                out.append((x, q))
+        return out
+
+    def is_direction(n: ast.AST) -> bool:
+        """a test of the *sign* of dot(n_i, n_j): comparison of the plain dot product with zero"""
+        if isinstance(n, ast.Compare) and len(n.ops) == 1:
+            sides = [n.left, n.comparators[0]]
+            zero = [x for x in sides if isinstance(x, ast.Constant) and x.value in (0, 0.0)]
+            dots = [x for x in sides if isinstance(x, ast.Call) and norm(x.func) in ("numpy.dot", "np.dot") and sorted(norm(a) for a in x.args) == [NI, NJ]]
+            return len(zero) == 1 and len(dots) == 1
+        return False
+
     def group_of(n: ast.AST) -> Optional[str]:
-        calls = _abv_calls(n)
-        if not calls:
+        if is_direction(n):
             return None
-        sig = sorted(norm(x) for x in calls)
-        args = [sorted(norm(a) for a in x.args) for x in calls if len(x.args) == 2]
-        if len(calls) == 2 and sig in ([f"angle_between_vectors(-{NI}, {NJ})", f"angle_between_vectors({NI}, {NJ})"], [f"angle_between_vectors({NI}, -{NJ})", f"angle_between_vectors({NI}, {NJ})"], [f"angle_between_vectors(-{NJ}, {NI})", f"angle_between_vectors({NJ}, {NI})"]):
+        qs = quantities(n)
+        if not qs:
+            return None
+        ops = [{q[1].lstrip("-"), q[2].lstrip("-")} for x, q in qs]
+        if all(o == {NI, NJ} for o in ops) and len(qs) in (1, 2):
+            # angle(n_i, n_j) and angle(-n_i, n_j) side by side, or the one cosine dot(n_i, n_j) under abs()
             return "normals"
-        if len(calls) == 2 and len(args) == 2:
-            vecs = {a for x in calls for a in (norm(x.args[0]), norm(x.args[1]))}
-            ns = vecs & {NI, NJ}
-            if ns == {NI, NJ} and len(vecs - ns) == 1:
-                return "offset"
+        if len(qs) == 2 and all(len(o & {NI, NJ}) == 1 for o in ops) and {next(iter(o & {NI, NJ})) for o in ops} == {NI, NJ} and len({next(iter(o - {NI, NJ})) for o in ops if o - {NI, NJ}}) == 1:
+            return "offset"
         return "other"
 
     def decided(p: SX.Path, e: SX.Effect, keys: Set[str], value: bool) -> bool:
@@ -226,14 +243,14 @@ def check_pair_loop(chk, fi: FuncInfo, loop: ast.For, sites: c03e.Sites, c: Dict
 
     def check_region(tag: str, limit: float, rule: str) -> Optional[str]:
         alts = {}
-        calls: Dict[str, ast.Call] = {}
+        calls: Dict[str, Tuple[ast.Call, Tuple[str, str, str]]] = {}
         for p, e in recs:
             cs = [(k, v, n) for k, v, n in p.conds if group_of(n) == tag]
             a = c03e._conj(cs)
             alts[norm(a)] = a
             for k, v, n in cs:
-                for x in _abv_calls(n):
-                    calls[norm(x)] = x
+                for x, q in quantities(n):
+                    calls[norm(x)] = (x, q)
         if not calls:
             chk.violation(rule, fi.site(loop), f"the {tag} criterion is missing from the stacking loop: pairs are recorded without it", K(fi, f"{tag}-missing"))
             return None
@@ -242,24 +259,42 @@ def check_pair_loop(chk, fi: FuncInfo, loop: ast.For, sites: c03e.Sites, c: Dict
             return None
         test = ast.fix_missing_locations(c03e._disj(list(alts.values())))
         texts = sorted(calls)
-        qs = [((lambda n, t=t: isinstance(n, ast.Call) and norm(n) == t), "rad") for t in texts]
+        units = {q[0] for x, q in calls.values()}
+        if len(units) != 1:
+            chk.error(rule, fi.site(loop), f"the {tag} criterion mixes angles and cosines")
+            return None
+        unit = units.pop()
         try:
-            regn = intervals.region(test, qs, fold, extra_thresholds=(limit, 0.0, 180.0))
-            bad = {k: v for k, v in regn.items() if 0 <= k[0] <= 180 and 0 <= k[1] <= 180 and v != (not min(k) > limit)}
+            if tag == "normals" and len(texts) == 1:
+                # one quantity: the angle theta between the normals; the antiparallel arrangement is theta' = 180 - theta
+                qs = [((lambda n, t=texts[0]: isinstance(n, ast.Call) and norm(n) == t), unit)]
+                regn = intervals.region(test, qs, fold, extra_thresholds=(limit, 180.0 - limit, 0.0, 180.0))
+                bad = {k: v for k, v in regn.items() if 0 <= k[0] <= 180 and v != (not min(k[0], 180.0 - k[0]) > limit)}
+                shape = "the angle between the normals or its supplement"
+            else:
+                qs = [((lambda n, t=t: isinstance(n, ast.Call) and norm(n) == t), unit) for t in texts]
+                regn = intervals.region(test, qs, fold, extra_thresholds=(limit, 0.0, 180.0))
+                if tag == "normals":
+                    # the two quantities are theta and 180 - theta: only the cells on that line are reachable, compared along it
+                    bad = {k: v for k, v in regn.items() if 0 <= k[0] <= 180 and 0 <= k[1] <= 180 and v != (not min(k) > limit)}
+                else:
+                    bad = {k: v for k, v in regn.items() if 0 <= k[0] <= 180 and 0 <= k[1] <= 180 and v != (not min(k) > limit)}
+                shape = "the smaller of the two angles"
+            first = sorted(bad)[0] if bad else None
             chk.expect(
                 not bad,
                 rule,
                 fi.site(loop),
-                f"a pair is skipped iff the smaller of the two angles exceeds {limit} degrees ({len(regn)} cells compared, accept condition read from {len(recs)} recording paths)",
-                f"{tag} test does not skip exactly when min(angle_1, angle_2) > {limit} degrees (accept condition `{norm(test)[:110]}`)",
+                f"a pair is skipped iff {shape} exceeds {limit} degrees ({len(regn)} cells compared, accept condition read from {len(recs)} recording paths" + (", angles measured by their cosines" if unit == "cos" else "") + ")",
+                f"{tag} test does not skip exactly when {shape} exceeds {limit} degrees: e.g. at {first} degrees the pair is {'kept' if first is not None and bad[first] else 'skipped'} (accept condition `{norm(test)[:110]}`)",
                 K(fi, f"{tag}-region"),
                 expected=f"skip iff min(a1, a2) > {limit} deg",
-                found={str(k): v for k, v in list(bad.items())[:6]},
+                found={str(k): v for k, v in list(sorted(bad.items()))[:6]},
             )
         except intervals.NotThreshold as ex:
             chk.error(rule, fi.site(loop), str(ex))
         if tag == "offset":
-            vecs = {a for x in calls.values() for a in (norm(x.args[0]), norm(x.args[1]))} - {NI, NJ}
+            vecs = {a for x, q in calls.values() for a in (q[1], q[2])} - {NI, NJ}
             return next(iter(vecs)) if len(vecs) == 1 else None
         return None
 
@@ -370,7 +405,7 @@ def check_registration(chk, fi: FuncInfo, sites: c03e.Sites) -> None:
 
 def check_orientation(chk, fi: FuncInfo, loop: ast.For, sites: c03e.Sites, fold, label_of, rule: str = "stack-orientation") -> None:
     """C11: every recorded stacking names the lower residue first (the later sorted() orders the list, it does not re-orient a pair)."""
-    paths = SX.Executor(nonnull=sites.nonnull, rewrite=sites.rewrite).run(loop.body)
+    paths = SX.Executor(nonnull=sites.nonnull, rewrite=sites.rewrite, helpers=c03e.new_helpers(chk.repo, fi)).run(loop.body, c03e.constant_tuples(fi, loop))
     stores = sorted({e.recv for p in paths for e in p.effects if e.kind == "call" and e.method == "append" and e.recv in sites.nonnull})
     if len(stores) != 1:
         raise NotReadable(f"the stacking loop appends to {stores}, expected one list of triples")
@@ -385,3 +420,78 @@ def check_orientation(chk, fi: FuncInfo, loop: ast.For, sites: c03e.Sites, fold,
         if (a, b) != want:
             bad[f"residue_i {'<' if lf else '>'} residue_j"] = [a, b]
     chk.expect(not bad, rule, fi.site(loop), "every stacking is recorded with the lower residue first (both residue orders evaluated)", f"a stacking is recorded with the higher residue first when {sorted(bad)[0] if bad else ''}: `{bad}` - the list is sorted afterwards but a pair is never re-oriented, so the same contact is (a, b) or (b, a) depending on the order of the residues in the file", K(fi, "stack-orientation"), found=bad)
+
+
+def centroid_by_value(chk, fi: FuncInfo, points: str) -> bool:
+    """The centroid registered for a residue, decided on values: the statements before `KDTree(<points>)` are evaluated on stand-in
+    residues (every base letter; all ring atoms present / one missing / none present) and the registered point is compared with the
+    mean of the ring atoms (pinned BASE_ATOMS) that are present.  Returns False when the code is not evaluable (nothing reported)."""
+    from checks import c03v
+
+    repo = chk.repo
+    t = c03v.tables()
+    cases = []
+    for L in c03v.LETTERS:
+        ring = t["BASE_ATOMS"].get(L, [])
+        cases.append((L, []))
+        if ring:
+            cases.append((L, [ring[len(ring) // 2]]))
+            cases.append((L, list(ring)))
+    results = []
+    try:
+        for L, missing in cases:
+            res = c03v.ResStub(repo, L, model=1, tag=1, missing=missing)
+            env = c03v.run_prefix(repo, fi, points, [res], None)
+            results.append((L, missing, res, list(env[points]), c03v.site_dicts(env, points) if env[points] else {}))
+    except c03v.NotEvaluable as ex:
+        if "ZeroDivisionError" in str(ex):
+            chk.violation("centroid-guard", fi.where, f"registering a residue without any ring atom present fails ({str(ex)[:80]}): the centroid is computed without testing that at least one base atom is present", K(fi, "centroid-guard"))
+            return True
+        return False
+    site = fi.where
+    wrong, unguarded, mapping = {}, {}, {}
+    for L, missing, res, pts, dicts in results:
+        ring = [a for a in res.atoms if a.name in t["BASE_ATOMS"].get(L, [])]
+        label = f"{L}" + (f" without {missing[0]}" if len(missing) == 1 else (" without ring atoms" if missing else ""))
+        if not ring:
+            if pts:
+                unguarded[label] = pts[:1]
+            continue
+        want = tuple(sum(getattr(a, ax) for a in ring) / len(ring) for ax in "xyz")
+        if len(pts) != 1 or not isinstance(pts[0], (tuple, list)) or len(pts[0]) != 3 or any(abs(float(g) - w) > 1e-9 for g, w in zip(pts[0], want)):
+            # which atoms give the registered point?  (tables of tertiary.py that list ring atoms)
+            why = ""
+            if len(pts) == 1 and isinstance(pts[0], (tuple, list)) and len(pts[0]) == 3:
+                for tab, names in (("Residue3D.nucleobase_heavy_atoms", _class_table(repo, "nucleobase_heavy_atoms").get(L, [])), ("all atoms of the residue", [a.name for a in res.atoms])):
+                    sel = [a for a in res.atoms if a.name in names]
+                    for den in (len(sel), len([n for n in names]) or 1, len(t["BASE_ATOMS"].get(L, [])) or 1):
+                        if sel and all(abs(float(g) - sum(getattr(a, ax) for a in sel) / den) < 1e-9 for g, ax in zip(pts[0], "xyz")):
+                            why = f" (it is the sum over the atoms of {tab} that are present, divided by {den})"
+                            break
+                    if why:
+                        break
+                if not why:
+                    for den in (len(t["BASE_ATOMS"].get(L, [])),):
+                        if den and all(abs(float(g) - sum(getattr(a, ax) for a in ring) / den) < 1e-9 for g, ax in zip(pts[0], "xyz")):
+                            why = f" (the sum over the ring atoms present is divided by {den}, the number of ring atoms expected)"
+            wrong[label] = f"registered {[round(float(x), 4) for x in pts[0]] if pts and isinstance(pts[0], (tuple, list)) else pts}, mean of the ring atoms present {[round(w, 4) for w in want]}{why}"
+        for d, content in dicts.items():
+            for k, v in content.items():
+                if v is not res and not (isinstance(v, tuple) and res in v):
+                    mapping[label] = f"`{d}` maps the centroid to {v!r}"
+    chk.expect(not wrong, "centroid-mean", site, f"centroid = per-axis mean of the ring atoms (BASE_ATOMS) that are present ({len(results)} stand-in residues evaluated: every base letter, complete / one ring atom missing)", f"the registered centroid is not the mean of the ring atoms that are present: {dict(list(wrong.items())[:3])}", K(fi, "centroid"), found=wrong)
+    chk.ok("centroid-axes", site, "components are the means of x, y, z in this order (compared by value)") if not wrong else None
+    chk.ok("centroid-atoms", site, "centroid atoms = the ring atoms of the residue's base (by value, for A, G, C, U, T and an unknown letter)") if not wrong else None
+    chk.expect(not unguarded, "centroid-guard", site, "a centroid exists only for residues with at least one base atom present (a residue without ring atoms registers nothing)", f"a residue without ring atoms is registered: {unguarded}", K(fi, "centroid-guard"), found=unguarded)
+    chk.expect(not mapping, "centroid-register", site, "the centroid is mapped back to its residue under the same key", f"the dictionary keyed by the centroid does not hold the residue: {mapping}", K(fi, "centroid-register"), found=mapping)
+    return True
+
+
+def _class_table(repo, attr: str) -> Dict[str, List[str]]:
+    from sa.consteval import Folder
+
+    try:
+        v = Folder(repo, "tertiary").fold(repo.class_attr_expr("tertiary", "Residue3D", attr))
+        return {k: sorted(x) for k, x in v.items()} if isinstance(v, dict) else {}
+    except Exception:
+        return {}
